@@ -2,6 +2,7 @@ import NmVerif.Simd.Loop
 import NmVerif.Simd.LoopLemmas
 import NmVerif.Simd.ReduceLemmas
 import NmVerif.Simd.EnumLemmas
+import NmVerif.Simd.HorizLemmas
 /-
   C12 — SIMD evaluation equals scalar evaluation for every size, shape and layout.
   Only property statements (+ non-vacuity examples, counterexamples of known findings) live here.
@@ -291,6 +292,63 @@ theorem bcastOff_in_bounds (R oc rows cols o : Nat) (hoc : 0 < oc) (hok : Operan
 theorem binary2d_bcast1x1_counterexample :
     (binary2dAt 4 2 2 2 1 1 2).2.2 = ⟨Tag.SCALAR, 1⟩ ∧ (binary2dAt 4 2 2 2 1 1 2).1.off = 2 ∧ bcastOff 1 1 2 2 = 0 := by decide
 
+/-! ## eval_reduction along the last axis (HORIZONTAL, identity padding) -/
+
+/-- **horizontal SIMD reduction = monoid sum of every row**, for every lane count, every row length `C`
+    (also not a multiple of the lane count: the last register is padded with the identity `e`) and every
+    number of rows `R`, where `(R, C)` is the 2-d form `reduction_nd_reshape` gives the n-d operand; over a
+    commutative monoid `(op, e)` with `e` the value the code pads and resets with (`view.op.identity()`).
+    The result is `some _`: no load or store leaves a buffer. -/
+theorem simdReduceHorizontal_eq_fold (N : Nat) (hN : 0 < N) (packOp : List α → List α → List α)
+    (op : α → α → α) (e : α) (hm : IsCommMonoid op e) (hp : LaneWise2 N packOp op)
+    (inp : List α) (outShape inpShape : List Nat) (axis R C : Nat)
+    (hRC : reductionNdReshape .horizontal inpShape axis = (R, C)) (hC : 0 < C)
+    (hinp : inp.length = R * C) (out : List α) (hout : out.length = R) :
+    simdReduceHorizontal N packOp op e inp outShape inpShape axis out
+      = some ((List.range R).map (fun i => IsCommMonoid.msum op e (rowOf inp C i))) := by
+  unfold simdReduceHorizontal reductionSize
+  rw [hRC]
+  show Option.map _ ((List.range (R * hCs N C)).foldlM _ _) = _
+  rw [foldlM_range_mul]
+  have key : ∀ m, m ≤ R →
+      (List.range m).foldlM (fun s i => (List.range (hCs N C)).foldlM
+          (fun s j => horizStep N packOp op e inp outShape inpShape axis s (i * hCs N C + j)) s)
+          (out, List.replicate N e)
+        = some (((List.range R).map (fun i => IsCommMonoid.msum op e (rowOf inp C i))).take m ++ out.drop m,
+                List.replicate N e) := by
+    intro m
+    induction m with
+    | zero => intro _; simp
+    | succ m ih =>
+      intro hmR
+      rw [List.range_succ, List.foldlM_append, ih (by omega)]
+      simp only [Option.bind_eq_bind, Option.bind_some, List.foldlM_cons, List.foldlM_nil]
+      have hin : m * C + C ≤ inp.length := by
+        have : (m + 1) * C ≤ R * C := Nat.mul_le_mul_right C hmR
+        rw [Nat.succ_mul] at this; omega
+      have hpre : (((List.range R).map (fun i => IsCommMonoid.msum op e (rowOf inp C i))).take m).length = m := by
+        rw [List.length_take, List.length_map, List.length_range]; omega
+      rw [horiz_row N packOp op e inp outShape inpShape axis R C hm hp hRC hN hC m hin _
+            (by rw [List.length_append, hpre, List.length_drop]; omega)]
+      simp only [Option.bind_some, Option.pure_def, Option.some.injEq, Prod.mk.injEq, and_true]
+      have hw := writeAt_prefix (((List.range R).map (fun i => IsCommMonoid.msum op e (rowOf inp C i))).take m)
+        (out.drop m) (IsCommMonoid.msum op e (rowOf inp C m)) m hpre (by rw [List.length_drop]; omega)
+      unfold writeAt at hw
+      rw [if_pos (by rw [List.length_append, hpre, List.length_drop]; omega)] at hw
+      rw [Option.some.inj hw, List.drop_drop, List.take_add]
+      congr 2
+      rw [List.drop_eq_getElem_cons (by rw [List.length_map, List.length_range]; omega)]
+      simp
+  rw [key R (Nat.le_refl R)]
+  simp only [Option.map_some, Option.some.injEq]
+  rw [List.take_of_length_le (by simp), List.drop_of_length_le (by omega), List.append_nil]
+
+/-- the monoid sum of a non-empty row is the scalar evaluator's left fold from its first element -/
+theorem msum_eq_scalar_fold (op : α → α → α) (e : α) (hm : IsCommMonoid op e) (x : α) (xs : List α) :
+    IsCommMonoid.msum op e (x :: xs) = xs.foldl op x := by
+  show (x :: xs).foldl op e = xs.foldl op x
+  rw [List.foldl_cons, hm.id_left]
+
 /-! non-vacuity -/
 example : LaneWise1 4 (fun xs : List Nat => xs.map (· + 1)) (· + 1) := fun _ _ => rfl
 example : (⟨[2,5], false, List.range 10⟩ : NDA Nat).WF ∧ Pos [2,5] := ⟨by simp [NDA.WF, prod], by decide⟩
@@ -300,6 +358,10 @@ example : packedStarts 4 10 = [0,4] ∧ tailIdx 4 10 = [8,9] := by decide
 example : IsCommMonoid (· + ·) (0 : Int) := ⟨Int.add_assoc, Int.add_comm, Int.zero_add⟩
 example : IsCommMonoid (· * ·) (1 : Int) := ⟨Int.mul_assoc, Int.mul_comm, Int.one_mul⟩
 example : LaneWise2 4 (List.zipWith (· + ·)) (fun a b : Int => a + b) := fun _ _ _ _ => rfl
+example : reductionNdReshape .horizontal [2,3,5] 2 = (6, 5) ∧ reductionNdReshape .vertical [2,3,5] 1 = (6, 5)
+    ∧ reductionNdReshape .vertical [2,1,5] 1 = (2, 5) := by decide
+example : simdReduceHorizontal 4 (List.zipWith (· + ·)) (· + ·) (0 : Int) [1,2,3,4,5,6,7,8,9,10] [2,1] [2,5] 1 [0,0]
+    = some [15, 40] := by decide
 example : simdReduceAll 4 (List.zipWith (· + ·)) (· + ·) (0 : Int) ⟨[2,5], false, [1,2,3,4,5,6,7,8,9,10]⟩ = some 55 := by decide
 
 end NmVerif.Props.C12
